@@ -30,6 +30,9 @@ type c13Case struct {
 	// RefusedAssign: the update that assigns the target is answered with an error because the reload of Prometheus
 	// fails (Prometheus restarting); the sidecar lists the target all the same and Prometheus scrapes it
 	RefusedAssign bool `json:"refusedAssign,omitempty"`
+	// PriorFail: the faulty scrape is preceded by another FAILED scrape with a different cause (HTTP 500): the status
+	// must then show the error of the latest failure
+	PriorFail bool `json:"priorFail,omitempty"`
 }
 
 var c13Body = []byte("# HELP http_requests_total The total number of HTTP requests.\n# TYPE http_requests_total counter\n" +
@@ -57,6 +60,8 @@ func c13Cases(tier string) []c13Case {
 		}
 		// the same outcomes for a target whose assigning update was refused because Prometheus' reload failed
 		cs = append(cs, c13Case{Kind: "none", Mode: m, RefusedAssign: true}, c13Case{Kind: "dial", Mode: m, RefusedAssign: true}, c13Case{Kind: "status", Status: 503, Mode: m, RefusedAssign: true})
+		// a failure that follows another failure with a different cause
+		cs = append(cs, c13Case{Kind: "status", Status: 503, Mode: m, PriorFail: true}, c13Case{Kind: "dial", Mode: m, PriorFail: true}, c13Case{Kind: "stop", Mode: m, PriorFail: true})
 		cs = append(cs, c13Case{Kind: "stall-before", Mode: m})
 		for _, off := range []int{0, 1, 60, len(c13Body) - 1} {
 			cs = append(cs, c13Case{Kind: "stall-mid", Offset: off, Mode: m})
@@ -210,7 +215,7 @@ func runC13Case(w *core.WorkerCtx, idx int, ld *c13Load) *core.CaseResult {
 	cs := c13Cases(w.Tier)
 	c := cs[idx]
 	kind := c13Kind(c)
-	res := &core.CaseResult{Sig: fmt.Sprintf("%s|%s|gz%v|big%v|off%d|st%d|refused%v", kind, c.Mode, c.Gzip, c.Big, c.Offset, c.Status, c.RefusedAssign), Nontrivial: true}
+	res := &core.CaseResult{Sig: fmt.Sprintf("%s|%s|gz%v|big%v|off%d|st%d|refused%v|prior%v", kind, c.Mode, c.Gzip, c.Big, c.Offset, c.Status, c.RefusedAssign, c.PriorFail), Nontrivial: true}
 	dir := filepath.Join(w.Scratch, fmt.Sprintf("c13-%d", idx))
 	// only the stall faults need the scrape timeout to fire; everything else gets a timeout no loaded machine reaches
 	timeout := rigLongTimeout
@@ -343,6 +348,20 @@ func runC13Case(w *core.WorkerCtx, idx int, ld *c13Load) *core.CaseResult {
 		before = st.ScrapeTimes
 	}
 
+	priorErr := ""
+	if c.PriorFail && assigned {
+		rg.mt.set(host, &bodyScript{Status: 500, Body: []byte("first failure\n")})
+		_ = scrape(reqURL)
+		st := status()
+		if st == nil || st.LastError == "" {
+			res.Inconcl = "the preceding failing scrape left no error"
+			return res
+		}
+		priorErr = st.LastError
+		before = st.ScrapeTimes
+		rg.mt.set(host, good) // the target itself is fine again; what follows is the fault of the case
+		res.AddStat("failures_preceded_by_another_failure", 1)
+	}
 	// 2. the faulty scrape
 	var raw *rawTarget
 	fault := true
@@ -549,6 +568,8 @@ func runC13Case(w *core.WorkerCtx, idx int, ld *c13Load) *core.CaseResult {
 		if fault {
 			if string(st.Health) != "down" || st.LastError == "" {
 				res.Violate("C13/health-not-down/"+kind, "real scrape failed (%s at offset %d) but status shows health %q lastError %q", kindText(c), c.Offset, st.Health, st.LastError)
+			} else if priorErr != "" && st.LastError == priorErr {
+				res.Violate("C13/stale-error/"+kind, "two failed scrapes in a row with different causes (HTTP 500, then %s): the status still shows the FIRST failure's error %q", kindText(c), st.LastError)
 			}
 		} else {
 			if string(st.Health) != "up" || st.LastError != "" {
@@ -635,6 +656,7 @@ func init() {
 		Rule: "fault = one failure of the real scrape behind the real Proxy.ServeHTTP: connect error, non-200 status {204,400,404,500,503}, stall before headers / mid body beyond the scrape timeout, administrative stop, body breaking off at EVERY wire offset of a 3-chunk body (identity and gzip) with three error kinds {unexpected EOF, generic read error, 'connection reset by peer'}, the same on a multi-block (>64 KiB) body at block boundaries, and over real TCP: short Content-Length body, cut chunked body, RST; " +
 			"each placement observed both through an instrumented ResponseWriter and through a real net/http server+client (the only way to see an aborted response); every case = healthy scrape, faulty scrape, healthy scrape, with /targets/status/ read after each; " +
 			"plus the administrative stop set or lifted while the real request is in flight (identity and gzip, both Prometheus-side modes): the attempt must come out consistently - complete 200 with the full body and health up, or failed response and health down with an error - counter +1 either way; healthy scrapes use a 120 s scrape timeout (only the stall faults use 1 s), and a case whose healthy scrapes time out is repeated up to three times, then inconclusive; " +
+			"plus failures (503, connection error, administrative stop) that directly follow a failure with another cause (HTTP 500): the status must show the latest failure's error; " +
 			"plus success / connection error / 503 for a target whose assigning update was answered with an error because the reload of Prometheus failed (the sidecar lists it all the same); " +
 			"non-trivial = every case (each executes a fault or the control); distinct = (kind, Prometheus-side mode, encoding, offset)",
 		Assumptions: []string{
